@@ -33,8 +33,12 @@ from lib import stage
 
 ID = "C04"
 NEEDS_GEN = True
-LEAN_TARGETS = ["AiuVerif.Props.C04", "AiuVerif.Props.Order", "AiuVerif.Props.C04Lanes"]
+LEAN_TARGETS = ["AiuVerif.Props.C04", "AiuVerif.Props.Order", "AiuVerif.Props.C04Lanes", "AiuVerif.Props.C01Stages"]
 THEOREMS = [
+    # in FRONT of the overlap stage: the tid mapping never puts two FLEX lanes on one (pid, tid), and recombine_cpu_events
+    # leaves every device slice where the mapping put it (Props/C01Stages.lean, compared with the real callbacks by C01)
+    "AiuVerif.C01.tidmap_lanes_pidtid",
+    "AiuVerif.C01.recombine_device_untouched",
     "AiuVerif.C04.laminar_stage",
     "AiuVerif.C04.laminar_tid",
     "AiuVerif.C04.laminar_drop",
